@@ -376,6 +376,12 @@ func (a *Array) Set(index uint64, value Value) (Storable, error) {
 		return nil, err
 	}
 
+	// If the element is overwritten with itself (same array or map), the returned storable
+	// is the element that was just stored.  Nothing was detached, so it must stay as is.
+	if isStorableOfValue(existingStorable, value) {
+		return existingStorable, nil
+	}
+
 	var existingValueID ValueID
 
 	// If overwritten storable is an inlined slab, uninline the slab and store it in storage.
